@@ -290,7 +290,7 @@ pub fn analyse_pair(
                             1 | 3 => Some(f + 1),
                             _ => {
                                 if honest {
-                                    Some((if f > b { f - b } else { b - f }) / 2 + 1)
+                                    Some((if f > b { f - b } else { b - f }) + 1)
                                 } else {
                                     None
                                 }
@@ -328,15 +328,34 @@ pub fn analyse_pair(
                             format!("procedure {}: reported success although {} (f {} b {} held {} reported {})", proc, why, f, b, held, reported),
                         ));
                     }
-                    if ts > MAX48 {
-                        violation.get_or_insert(Violation::new(
-                            "C18/time-beyond-48-bits",
-                            "",
-                            format!(
-                                "procedure {}: wrote {} which does not fit 48 bits",
-                                proc, ts
-                            ),
-                        ));
+                    // "... or the written time would not fit 48 bits": whatever the procedure, the time written is at least the
+                    // master's clock one forward delay before it reached the application (LAN: the recorded instant plus what
+                    // elapsed at the outstation; non-LAN and direct: the master's clock when the WRITE left, plus a correction >= 0)
+                    // the clock reading the library worked from (the last one before the time reached the application), when it
+                    // was a true 48-bit reading: the time to write is that reading plus what the procedure adds to it
+                    let reading = run.master_log.iter().rev().find_map(|(t, _, ev)| match ev {
+                        MEv::GetTime { t: Some(g), .. } if *t >= t_submit && *t <= t_cb => Some((*t, *g)),
+                        _ => None,
+                    });
+                    if let Some((t_g, g)) = reading {
+                        if g <= MAX48 {
+                            let to_write = match proc {
+                                1 => g + (t_cb - t_g).saturating_sub(f),
+                                2 => g + rtt.saturating_sub(reported) / 2,
+                                _ => g,
+                            };
+                            bump("probe.success_judged_against_48_bits");
+                            if to_write > MAX48 + 1 {
+                                violation.get_or_insert(Violation::new(
+                                    "C18/success-reported-although-it-had-to-fail",
+                                    "48-bits",
+                                    format!(
+                                        "procedure {}: reported success and handed {} to the application at {} ms although the time to write was {} (clock reading {} at {} ms; f {} b {} held {} reported {}), which does not fit 48 bits",
+                                        proc, ts, t_cb, to_write, g, t_g, f, b, held, reported
+                                    ),
+                                ));
+                            }
+                        }
                     }
                 } else {
                     bump("probe.reported_failure");
@@ -359,12 +378,11 @@ pub fn analyse_pair(
                     // an earlier abandoned attempt leaves a late reply in the stream: it arrives during this attempt and is ignored,
                     // but (for a READ-less task) nothing else changes - still expected to succeed unless it is still in flight
                     let earlier_hold_in_flight = id > 0;
+                    // (the statement demands failure in certain cases, it never demands success: a failure of a clean procedure is
+                    // counted - it would make the accuracy clauses vacuous if it were the rule - but it is not a violation)
                     if expected_ok && !earlier_hold_in_flight {
-                        violation.get_or_insert(Violation::new(
-                            "C18/clean-time-sync-failed",
-                            format!("proc={}", proc),
-                            format!("procedure {} failed with {} although nothing was wrong (f {} b {} held {} reported {} timeout {})", proc, outcome, f, b, held, reported, timeout),
-                        ));
+                        let _ = &outcome;
+                        bump("probe.clean_time_sync_failed");
                     }
                 }
             }
@@ -660,7 +678,7 @@ pub fn analyse_scripted(
                             1 | 3 => Some(f + 1),
                             _ => {
                                 if honest {
-                                    Some((if f > b { f - b } else { b - f }) / 2 + 1)
+                                    Some((if f > b { f - b } else { b - f }) + 1)
                                 } else {
                                     None
                                 }
@@ -676,6 +694,30 @@ pub fn analyse_scripted(
                                     format!("scripted proc={}", proc),
                                     format!("procedure {}: outstation clock {} vs master clock {} at {} ms (error {} ms, bound {} ms; f {} b {} reported {} honest {})", proc, clock, truth, t_w, err, bound, f, b, reported, honest),
                                 ));
+                            }
+                        }
+                    }
+                    // non-LAN: the time to write is the master's clock reading on arrival of the delay response plus half of the
+                    // round trip not spent in the outstation; it must fit 48 bits (a true 48-bit reading is required to judge)
+                    if *proc == 2 && honest {
+                        let reading = run.master_log.iter().rev().find_map(|(t, _, ev)| match ev {
+                            MEv::GetTime { t: Some(g), .. } if *t >= t_submit && *t + f <= t_w + 1 => Some((*t, *g)),
+                            _ => None,
+                        });
+                        if let Some((t_g, g)) = reading {
+                            if g <= MAX48 {
+                                bump("probe.success_judged_against_48_bits");
+                                let to_write = g + (f + b) / 2;
+                                if to_write > MAX48 + 1 {
+                                    violation.get_or_insert(Violation::new(
+                                        "C18/success-reported-although-it-had-to-fail",
+                                        "scripted-48-bits",
+                                        format!(
+                                            "non-LAN procedure reported success and wrote {} although the time to write was {} (clock reading {} at {} ms, f {} b {}), which does not fit 48 bits",
+                                            value, to_write, g, t_g, f, b
+                                        ),
+                                    ));
+                                }
                             }
                         }
                     }
